@@ -4,6 +4,7 @@ import (
 	"bufio"
 	"errors"
 	"fmt"
+	"time"
 
 	"github.com/gorilla/websocket"
 	"pgregory.net/rapid"
@@ -29,6 +30,13 @@ type BoundaryCase struct {
 	// Traced (client): Dial runs through DialContext with an
 	// httptrace.ClientTrace in the context.
 	Traced bool `json:"traced,omitempty"`
+	// After: what the application or the transport does between the handshake
+	// and the first read. "write_dead": every transport write fails from then
+	// on with a plain (non-net) error, so no pong and no close reply can be
+	// sent; "close_first": the application sends its own close frame before it
+	// reads what came with the handshake. Neither is a reason to lose a message
+	// that has already arrived.
+	After string `json:"after,omitempty"`
 }
 
 func genBoundaryCase(t *rapid.T) BoundaryCase {
@@ -59,6 +67,7 @@ func genBoundaryCase(t *rapid.T) BoundaryCase {
 	c.Rest = genChunks(t, "rest", 300)
 	c.EOFWith = rapid.Bool().Draw(t, "eof_with_last_bytes")
 	c.OnlyK = -1
+	c.After = rapid.SampledFrom([]string{"", "", "", "write_dead", "close_first"}).Draw(t, "after")
 	return c
 }
 
@@ -71,7 +80,21 @@ func checkC17(c BoundaryCase, o *Obs) error {
 	for i, m := range model.Msgs {
 		lens[i] = len(m.Payload)
 	}
+	var curTr *xport.ScriptConn
 	judge := func(conn *websocket.Conn, k int, path string) error {
+		switch c.After {
+		case "write_dead":
+			curTr.SetWriteFault(&xport.WriteFault{K: 0, Kind: xport.FaultError})
+			o.Class("writes_fail_after_handshake")
+		case "close_first":
+			if err := conn.WriteControl(websocket.CloseMessage, websocket.FormatCloseMessage(1000, "bye"), time.Now().Add(time.Minute)); err != nil {
+				return fmt.Errorf("split %d (%s): WriteControl(close) right after the handshake: %v", k, path, err)
+			}
+			o.Class("own_close_sent_before_first_read")
+		}
+		if c.After != "" {
+			path += ", " + c.After
+		}
 		rt := RunRead(conn, c.Reads, len(model.Msgs)+1, lens, 1)
 		n, err := compareRead(model.Msgs, rt, c.Reads)
 		if err != nil {
@@ -112,6 +135,7 @@ func checkC17(c BoundaryCase, o *Obs) error {
 			tr := xport.NewScriptConn(model.Wire, append([]int{k}, c.Rest...))
 			tr.NoLog = true
 			tr.EOFWithData = c.EOFWith && k < len(model.Wire)
+			curTr = tr
 			br := bufio.NewReaderSize(tr, h)
 			if k > 0 {
 				if _, err := br.Peek(1); err != nil {
@@ -152,6 +176,7 @@ func checkC17(c BoundaryCase, o *Obs) error {
 		}
 		tr := xport.NewScriptConn(model.Wire, append([]int{k}, c.Rest...))
 		tr.NoLog = true
+		curTr = tr
 		r := &responder{compress: c.R.Compress}
 		var rl int
 		tr.OnWrite = func(sc *xport.ScriptConn, p []byte) {
